@@ -154,7 +154,9 @@ def main():
         'checks': checks,
         'not_applicable': na,
         'notes': 'hook commits: %s; fix commits: %s (each recorded in KNOWN_FINDINGS.txt as fixed:). Exit 2 of a check means '
-                 'undecided for infrastructure reasons (lost anchor, unsupported construct, solver limit, vacuity guard), never a violation.'
+                 'undecided for infrastructure reasons (lost anchor, unsupported construct, solver limit, vacuity guard), never a violation. '
+                 'Known findings (genuine defects recorded, not repaired) are the `finding:` lines of KNOWN_FINDINGS.txt: currently one, '
+                 'C05 / V3m (the two nesting budgets multiply, witness 79x40); the check prints KNOWN-FINDING for it and exits 0.'
                  % (', '.join(hook_commits), ', '.join(fix_commits)),
     }
     with open(os.path.join(VERIF, 'MANIFEST.json'), 'w') as f:
